@@ -294,9 +294,16 @@ fn op_hist14(ops: &str) -> String {
                             for kv in f[2].split(',') {
                                 let (k, v) = kv.split_once('=').unwrap();
                                 let (d, u) = v.split_once(':').unwrap();
-                                if let Some(p) = s.verif_peers().get_mut(&addr_of(k.parse().unwrap())) {
-                                    p.download_rate = d.parse().ok();
-                                    p.uploaded_rate = u.parse().ok();
+                                // the rates arrive the way they do in a session: a SyncStats command of the connection task
+                                let addr = addr_of(k.parse().unwrap());
+                                if s.verif_peers().contains_key(&addr) {
+                                    let cmd = PeerCmd::SyncStats {
+                                        addr,
+                                        downloaded_rate: d.parse().ok(),
+                                        uploaded_rate: u.parse().ok(),
+                                        unexpected_blocks: 0,
+                                    };
+                                    let _ = s.verif_handle_peer_cmd(cmd).await;
                                 }
                             }
                         }
